@@ -2,3 +2,4 @@ pub mod poolsim;
 pub mod addrsort;
 pub mod eyeballs;
 pub mod sni;
+pub mod sniff;
